@@ -248,6 +248,57 @@ pub fn strip_prefix_char<'a>(s: &'a str, c: char) -> (r: Option<&'a str>)
 { unimplemented!() }
 '''
 
+DISPATCH = r'''
+// ---------------- SchemaCoordinate::from_str: dispatch over the five forms ----------------
+pub assume_specification<T, E, F2, O: FnOnce(E) -> Result<T, F2>>[Result::<T, E>::or_else](s: Result<T, E>, op: O) -> (r: Result<T, F2>)
+    requires s is Err ==> op.requires((s->Err_0,))
+    ensures match s { Ok(v) => r == Ok::<T, F2>(v), Err(e) => op.ensures((e,), r) };
+#[verifier::external_body]
+pub fn str_starts_with_char(s: &str, c: char) -> (r: bool) ensures r == (s@.len() > 0 && s@[0] == c) { unimplemented!() }
+/// what the components of a parsed coordinate say about the text (the `components` clauses of the five from_str contracts)
+pub open spec fn components(c: SchemaCoordinate, s: Seq<char>) -> bool {
+    match c {
+        SchemaCoordinate::Type(c) => @TYPE@,
+        SchemaCoordinate::TypeAttribute(c) => @TYPE_ATTRIBUTE@,
+        SchemaCoordinate::FieldArgument(c) => @FIELD_ARGUMENT@,
+        SchemaCoordinate::Directive(c) => @DIRECTIVE@,
+        SchemaCoordinate::DirectiveArgument(c) => @DIRECTIVE_ARGUMENT@,
+    }
+}
+pub open spec fn parsed_Type(o: Result<SchemaCoordinate, SchemaCoordinateParseError>, s: Seq<char>) -> bool { (o is Ok <==> form_type(s)) && (o is Ok ==> o->Ok_0 is Type && components(o->Ok_0, s)) }
+pub open spec fn parsed_TypeAttribute(o: Result<SchemaCoordinate, SchemaCoordinateParseError>, s: Seq<char>) -> bool { (o is Ok <==> form_type_attribute(s)) && (o is Ok ==> o->Ok_0 is TypeAttribute && components(o->Ok_0, s)) }
+pub open spec fn parsed_Directive(o: Result<SchemaCoordinate, SchemaCoordinateParseError>, s: Seq<char>) -> bool { (o is Ok <==> form_directive(s)) && (o is Ok ==> o->Ok_0 is Directive && components(o->Ok_0, s)) }
+/// `@`-forms start with `@`, the others with a NameStart character
+pub proof fn lemma_at_dispatch(s: Seq<char>)
+    ensures (form_directive(s) || form_directive_argument(s)) ==> s.len() > 0 && s[0] == '@',
+            (form_type(s) || form_type_attribute(s) || form_field_argument(s)) ==> s.len() > 0 && s[0] != '@'
+{
+    if form_directive(s) { let a = choose|a: Seq<char>| is_name(a) && s =~= #[trigger] (at() + a); assert(s[0] == at()[0]); }
+    if form_directive_argument(s) { let (a, b) = choose|a: Seq<char>, b: Seq<char>| is_name(a) && is_name(b) && s =~= #[trigger] (at() + a + lparen() + b + colon_rparen()); assert(s[0] == at()[0]); }
+    if form_type_attribute(s) { let (a, b) = choose|a: Seq<char>, b: Seq<char>| is_name(a) && is_name(b) && s =~= #[trigger] (a + dot() + b); assert(s[0] == a[0]); }
+    if form_field_argument(s) { let (a, b, c) = choose|a: Seq<char>, b: Seq<char>, c: Seq<char>| is_name(a) && is_name(b) && is_name(c) && s =~= #[trigger] (a + dot() + b + lparen() + c + colon_rparen()); assert(s[0] == a[0]); }
+}
+'''
+
+
+COMP = {
+    "TypeCoordinate": "r is Ok ==> r->Ok_0.ty.text@ =~= input@",
+    "TypeAttributeCoordinate": "r is Ok ==> is_name(r->Ok_0.ty.text@) && is_name(r->Ok_0.attribute.text@) && input@ =~= r->Ok_0.ty.text@ + dot() + r->Ok_0.attribute.text@",
+    "DirectiveCoordinate": "r is Ok ==> is_name(r->Ok_0.directive.text@) && input@ =~= at() + r->Ok_0.directive.text@",
+    "FieldArgumentCoordinate": "r is Ok ==> is_name(r->Ok_0.ty.text@) && is_name(r->Ok_0.field.text@) && is_name(r->Ok_0.argument.text@) && input@ =~= r->Ok_0.ty.text@ + dot() + r->Ok_0.field.text@ + lparen() + r->Ok_0.argument.text@ + colon_rparen()",
+    "DirectiveArgumentCoordinate": "r is Ok ==> is_name(r->Ok_0.directive.text@) && is_name(r->Ok_0.argument.text@) && input@ =~= at() + r->Ok_0.directive.text@ + lparen() + r->Ok_0.argument.text@ + colon_rparen()",
+}
+
+
+def _as_spec(clause):
+    assert clause.startswith("r is Ok ==> ")
+    return clause[len("r is Ok ==> "):].replace("r->Ok_0", "c").replace("input@", "s")
+
+
+DISPATCH_TEXT = (DISPATCH.replace("@TYPE@", _as_spec(COMP["TypeCoordinate"])).replace("@TYPE_ATTRIBUTE@", _as_spec(COMP["TypeAttributeCoordinate"]))
+                 .replace("@FIELD_ARGUMENT@", _as_spec(COMP["FieldArgumentCoordinate"])).replace("@DIRECTIVE@", _as_spec(COMP["DirectiveCoordinate"]))
+                 .replace("@DIRECTIVE_ARGUMENT@", _as_spec(COMP["DirectiveArgumentCoordinate"])))
+
 
 def S(name):
     return dict(file=CO, kind="struct", name=name, props=["C23"])
@@ -267,30 +318,43 @@ UNIT = {
         S("TypeCoordinate"), S("TypeAttributeCoordinate"), S("FieldArgumentCoordinate"), S("DirectiveCoordinate"), S("DirectiveArgumentCoordinate"),
         F("TypeCoordinate", [
             ("ensures", "ok_iff_form", "r is Ok <==> form_type(input@)"),
-            ("ensures", "components", "r is Ok ==> r->Ok_0.ty.text@ =~= input@"),
+            ("ensures", "components", COMP["TypeCoordinate"]),
         ]),
         F("TypeAttributeCoordinate", [
             ("ensures", "ok_iff_form", "r is Ok <==> form_type_attribute(input@)"),
-            ("ensures", "components", "r is Ok ==> is_name(r->Ok_0.ty.text@) && is_name(r->Ok_0.attribute.text@) && input@ =~= r->Ok_0.ty.text@ + dot() + r->Ok_0.attribute.text@"),
+            ("ensures", "components", COMP["TypeAttributeCoordinate"]),
         ], rewrites=[("input.split_once('.')", "split_once_char(input, '.')", 1)],
            hints=[("body_start", None, "proof { lemma_type_attribute(input@); }")]),
         F("DirectiveCoordinate", [
             ("ensures", "ok_iff_form", "r is Ok <==> form_directive(input@)"),
-            ("ensures", "components", "r is Ok ==> is_name(r->Ok_0.directive.text@) && input@ =~= at() + r->Ok_0.directive.text@"),
+            ("ensures", "components", COMP["DirectiveCoordinate"]),
         ], rewrites=[("input.strip_prefix('@')", "strip_prefix_char(input, '@')", 1)],
            hints=[("body_start", None, "proof { lemma_directive(input@); }")]),
     
         F("FieldArgumentCoordinate", [
             ("ensures", "ok_iff_form", "r is Ok <==> form_field_argument(input@)"),
-            ("ensures", "components", "r is Ok ==> is_name(r->Ok_0.ty.text@) && is_name(r->Ok_0.field.text@) && is_name(r->Ok_0.argument.text@) && input@ =~= r->Ok_0.ty.text@ + dot() + r->Ok_0.field.text@ + lparen() + r->Ok_0.argument.text@ + colon_rparen()"),
+            ("ensures", "components", COMP["FieldArgumentCoordinate"]),
         ], rewrites=[("input.split_once('(')", "split_once_char(input, '(')", 1), ("rest.split_once(':')", "split_once_char(rest, ':')", 1)],
            hints=[("body_start", None, "proof { lemma_field_argument(input@); reveal_strlit(\")\"); axiom_str_ext(); assert(\")\"@ =~= seq![')']); }"),
                   ("before", "let field = TypeAttributeCoordinate::from_str(field)?;", "proof { lemma_arg_tail(rest@); }")]),
         F("DirectiveArgumentCoordinate", [
             ("ensures", "ok_iff_form", "r is Ok <==> form_directive_argument(input@)"),
-            ("ensures", "components", "r is Ok ==> is_name(r->Ok_0.directive.text@) && is_name(r->Ok_0.argument.text@) && input@ =~= at() + r->Ok_0.directive.text@ + lparen() + r->Ok_0.argument.text@ + colon_rparen()"),
+            ("ensures", "components", COMP["DirectiveArgumentCoordinate"]),
         ], rewrites=[("input.split_once('(')", "split_once_char(input, '(')", 1), ("rest.split_once(':')", "split_once_char(rest, ':')", 1)],
            hints=[("body_start", None, "proof { lemma_directive_argument(input@); reveal_strlit(\")\"); axiom_str_ext(); assert(\")\"@ =~= seq![')']); }"),
                   ("before", "let directive = DirectiveCoordinate::from_str(directive)?;", "proof { lemma_arg_tail(rest@); }")]),
+        dict(file=CO, kind="enum", name="SchemaCoordinate", props=["C23"]),
+        DISPATCH_TEXT,
+        F("SchemaCoordinate", [
+            ("ensures", "ok_iff_one_of_the_five_forms", "r is Ok <==> (form_type(input@) || form_type_attribute(input@) || form_field_argument(input@) || form_directive(input@) || form_directive_argument(input@))"),
+            ("ensures", "the_variant_has_that_form_and_those_components",
+             "r is Ok ==> components(r->Ok_0, input@) && match r->Ok_0 { SchemaCoordinate::Type(_) => form_type(input@), SchemaCoordinate::TypeAttribute(_) => form_type_attribute(input@), "
+             "SchemaCoordinate::FieldArgument(_) => form_field_argument(input@), SchemaCoordinate::Directive(_) => form_directive(input@), SchemaCoordinate::DirectiveArgument(_) => form_directive_argument(input@) }"),
+        ], rewrites=[("Result<Self, ", "Result<SchemaCoordinate, ", 1),
+                     ("input.starts_with('@')", "str_starts_with_char(input, '@')", 1),
+                     (r"\.or_else\(\|_unused\| (\w+)Coordinate::from_str\(input\)\.map\(Self::(\w+)\)\)",
+                      r".or_else(|_unused: SchemaCoordinateParseError| -> (o: Result<SchemaCoordinate, SchemaCoordinateParseError>) ensures parsed_\2(o, input@) { \1Coordinate::from_str(input).map(|v: \1Coordinate| -> (o2: SchemaCoordinate) ensures o2 == SchemaCoordinate::\2(v) { SchemaCoordinate::\2(v) }) })", None, "re"),
+                     (r"\.map\(Self::(\w+)\)", r".map(|v: \1Coordinate| -> (o2: SchemaCoordinate) ensures o2 == SchemaCoordinate::\1(v) { SchemaCoordinate::\1(v) })", None, "re")],
+           hints=[("body_start", None, "proof { lemma_at_dispatch(input@); }")]),
     ],
 }
